@@ -80,4 +80,118 @@ C(t) ==
       [] t.k = "mcall" -> CArgs(t.args, Len(t.args)) \o C(t.r) \o <<Push([t |-> "ident", n |-> t.f, fc |-> t.fc]), I("ACCESS"), N("CALL", Len(t.args))>>
 
 Compile(t) == <<C(t)>>          \* a program: block 1 is the code, nested blocks are carried by their operands
+
+----------------------------------------------------------------------------
+(* The folding compiler (C09).  F(t) is either a constant or code:                                                    *)
+(*   - an operator folds when all its operands are constants (failures fold into failure constants);                  *)
+(*   - || and && never fold (their short-circuit prefix is always code), a unary prefix never folds;                  *)
+(*   - ?: with a constant condition IS the chosen clause (a failed condition is that failure);                        *)
+(*   - a list / map of constants is a constant; {..}.f on a constant map with that field is the field;                *)
+(*   - a call is compiled to code and then run once at compile time (check_for_const) under the compile-time         *)
+(*     bindings (built-in functions, macros and types; no variables, no programs): it becomes a constant only when    *)
+(*     that run produced a value, met no unresolved name, and the code does not read the clock.                       *)
+(* Cst(Unk) stands for "the model cannot tell": it makes the run undetermined, never a disagreement.                  *)
+Cst(v) == [c |-> TRUE, v |-> v]
+Cod(code) == [c |-> FALSE, code |-> code]
+BC(n) == IF n.c THEN <<Push(n.v)>> ELSE n.code
+EmptyF == [x \in {} |-> 0]
+CompileEnv == [vars |-> EmptyF, progs |-> EmptyF, funcs |-> EmptyF, nomacros |-> {"has", "coalesce"}]
+Op2(op, a, b) == Step1(<<>>, <<I(op)>>, 0, <<a, b>>, CompileEnv, 1, <<>>).stack[1]
+RECURSIVE ReadsClock(_)
+ReadsClock(code) ==
+    \/ \E k \in 1..(Len(code) - 1) : /\ code[k].op = "PUSH" /\ code[k].v.t = "ident" /\ code[k].v.n \in {"now", "timestamp"}
+                                      /\ code[k + 1].op = "CALL" /\ code[k + 1].n = 0
+    \/ \E k \in 1..Len(code) : code[k].op = "PUSH" /\ code[k].v.t = "code" /\ ReadsClock(code[k].v.c)
+CheckForConst(code) ==
+    IF ReadsClock(code) THEN Cod(code)
+    ELSE LET r == RunBlock(<<>>, code, CompileEnv, 0) IN
+         IF r.k = "hard" THEN Cod(code)                       \* a failure is never folded: the code stays
+         ELSE IF SawUnresolved(r.log) THEN Cod(code)
+         ELSE Cst(r.v)                                        \* possibly Unk
+
+RECURSIVE F(_), FArgs(_, _), FAll(_, _)
+FArgs(ts, i) == IF i = 0 THEN <<>> ELSE <<Push(Code(BC(F(ts[i]))))>> \o FArgs(ts, i - 1)
+FAll(ts, i) == IF i > Len(ts) THEN <<>> ELSE <<F(ts[i])>> \o FAll(ts, i + 1)
+F(t) ==
+    CASE t.k = "lit" ->          \* a negative number is written, and compiled, as a unary minus
+           IF t.v.t = "int" /\ t.v.n.s = -1 THEN Cod(<<Push(VInt(BNeg(t.v.n))), I("NEG")>>)
+           ELSE IF t.v.t = "dbl" /\ t.v.neg THEN Cod(<<Push([t.v EXCEPT !.neg = FALSE]), I("NEG")>>)
+           ELSE Cst(t.v)
+      [] t.k = "id" -> Cod(<<PushId(t.n)>>)
+      [] t.k = "paren" -> F(t.e)
+      [] t.k = "un" -> Cod(BC(F(t.e)) \o Rep(I(IF t.op = "!" THEN "NOT" ELSE "NEG"), t.n))
+      [] t.k = "bin" ->
+           IF t.op \in {"||", "&&"} THEN
+              LET es == Chain(t, t.op)
+                  parts == [j \in 1..Len(es) |-> BC(F(es[j]))]
+                  RECURSIVE Total(_)
+                  Total(j) == IF j > Len(es) THEN 0 ELSE (IF j = 1 THEN 0 ELSE 4) + Len(parts[j]) + Total(j + 1)
+                  total == Total(1)
+                  RECURSIVE Build(_, _)
+                  Build(j, sofar) ==
+                      IF j > Len(es) THEN <<>>
+                      ELSE <<I("TEST"), I("DUP"), JmpC(t.op = "||", total - (sofar + 3))>> \o parts[j] \o <<I(IF t.op = "||" THEN "OR" ELSE "AND")>>
+                           \o Build(j + 1, sofar + 4 + Len(parts[j]))
+              IN Cod(parts[1] \o Build(2, Len(parts[1])))
+           ELSE LET a == F(t.l)  b == F(t.r) IN
+                IF a.c /\ b.c THEN Cst(Op2(BinOpName(t.op), a.v, b.v))
+                ELSE Cod(BC(a) \o BC(b) \o <<I(BinOpName(t.op))>>)
+      [] t.k = "tern" ->
+           LET c == F(t.c) IN
+           IF c.c THEN (IF IsUnk(c.v) THEN Cst(Unk) ELSE IF IsErrV(c.v) THEN c ELSE IF TruthyV(c.v) THEN F(t.a) ELSE F(t.b))
+           ELSE LET a == BC(F(t.a))  b == BC(F(t.b)) IN
+                Cod(c.code \o <<I("TEST"), I("DUP"), JmpC(FALSE, 1 + Len(a) + 1), I("POP")>> \o a \o <<Jmp(4 + Len(b))>>
+                           \o <<I("DUP"), I("NOT"), JmpC(FALSE, 1 + Len(b)), I("POP")>> \o b)
+      [] t.k = "list" ->
+           LET es == FAll(t.es, 1) IN
+           IF \A k \in 1..Len(es) : es[k].c
+           THEN Cst(IF \E k \in 1..Len(es) : IsErrV(es[k].v) \/ IsUnk(es[k].v) THEN Unk ELSE VList([k \in 1..Len(es) |-> es[k].v]))
+           ELSE LET RECURSIVE Cat(_)
+                    Cat(k) == IF k > Len(es) THEN <<>> ELSE BC(es[k]) \o Cat(k + 1)
+                IN Cod(Cat(1) \o <<N("MKLIST", Len(es))>>)
+      [] t.k = "map" ->
+           LET ks == [k \in 1..Len(t.kv) |-> F(t.kv[k][1])]
+               vs == [k \in 1..Len(t.kv) |-> F(t.kv[k][2])]
+           IN IF \A k \in 1..Len(t.kv) : ks[k].c /\ vs[k].c
+              THEN Cst(IF \E k \in 1..Len(t.kv) : IsErrV(ks[k].v) \/ IsUnk(ks[k].v) \/ IsErrV(vs[k].v) \/ IsUnk(vs[k].v) THEN Unk
+                       ELSE OfOutcome(MkMap([k \in 1..Len(t.kv) |-> <<ks[k].v, vs[k].v>>])))
+              ELSE LET RECURSIVE Cat(_)
+                       Cat(k) == IF k > Len(t.kv) THEN <<>> ELSE BC(vs[k]) \o BC(ks[k]) \o Cat(k + 1)
+                   IN Cod(Cat(1) \o <<N("MKDICT", Len(t.kv))>>)
+      [] t.k = "sel" ->
+           LET o == F(t.e) IN
+           IF o.c /\ IsUnk(o.v) THEN Cst(Unk)
+           ELSE IF o.c /\ o.v.t = "map" /\ MapHas(o.v.kv, t.fc) THEN Cst(MapGet(o.v.kv, t.fc))
+           ELSE Cod(BC(o) \o <<Push([t |-> "ident", n |-> t.f, fc |-> t.fc]), I("ACCESS")>>)
+      [] t.k = "idx" ->
+           LET a == F(t.e)  b == F(t.i) IN
+           IF a.c /\ b.c THEN Cst(Op2("INDEX", a.v, b.v)) ELSE Cod(BC(a) \o BC(b) \o <<I("INDEX")>>)
+      [] t.k = "fstr" ->
+           LET RECURSIVE Sg(_)
+               Sg(i) == IF i > Len(t.segs) THEN <<>>
+                        ELSE <<Push(IF "s" \in DOMAIN t.segs[i] THEN VStr(t.segs[i].s) ELSE Code(BC(F(t.segs[i].e)))), PushId("string"), N("CALL", 1)>> \o Sg(i + 1)
+               RECURSIVE Txt(_)
+               Txt(i) == IF i > Len(t.segs) THEN <<>> ELSE t.segs[i].s \o Txt(i + 1)
+           IN IF \A i \in 1..Len(t.segs) : "s" \in DOMAIN t.segs[i] THEN Cst(VStr(Txt(1)))       \* no expression segment: the tokenizer yields a plain string
+              ELSE Cod(Sg(1) \o <<N("FMT", Len(t.segs))>>)
+      [] t.k = "match" ->
+           LET Pat(p) == IF p.pk = "any" THEN <<I("POP"), Push(VTrue)>>
+                         ELSE IF p.pk = "type" THEN <<PushId("type"), N("CALL", 1), PushId(p.n), I("EQ")>>
+                         ELSE BC(F(p.v)) \o <<I(BinOpName(p.op))>>
+               CL(c) == 1 + Len(Pat(c.p)) + 1 + 1 + Len(BC(F(c.e))) + 1
+               RECURSIVE CsLen(_), Cs(_, _)
+               CsLen(i) == IF i > Len(t.cases) THEN 0 ELSE CL(t.cases[i]) + CsLen(i + 1)
+               Cs(i, rest) == IF i > Len(t.cases) THEN <<>>
+                              ELSE LET pat == Pat(t.cases[i].p)  body == BC(F(t.cases[i].e))  after == rest - CL(t.cases[i])
+                                   IN <<I("DUP")>> \o pat \o <<JmpC(FALSE, 1 + Len(body) + 1), I("POP")>> \o body \o <<Jmp(after)>> \o Cs(i + 1, after)
+           IN Cod(BC(F(t.e)) \o Cs(1, CsLen(1) + 2) \o <<I("POP"), Push(VNull)>>)
+      [] t.k = "call" -> CheckForConst(FArgs(t.args, Len(t.args)) \o <<PushId(t.f), N("CALL", Len(t.args))>>)
+      [] t.k = "mcall" ->
+           LET o == F(t.r)
+               callee == IF o.c /\ ~IsUnk(o.v) /\ o.v.t = "map" /\ MapHas(o.v.kv, t.fc) THEN <<Push(MapGet(o.v.kv, t.fc))>>
+                         ELSE BC(o) \o <<Push([t |-> "ident", n |-> t.f, fc |-> t.fc]), I("ACCESS")>>
+           IN IF o.c /\ IsUnk(o.v) THEN Cst(Unk)
+              ELSE CheckForConst(FArgs(t.args, Len(t.args)) \o callee \o <<N("CALL", Len(t.args))>>)
+
+CompileF(t) == <<BC(F(t))>>
 =============================================================================
